@@ -157,5 +157,11 @@ func checkRoomID(res *eventV3) error {
 	if !isCreateEvent && !strings.HasPrefix(res.eventFields.RoomID, "!") {
 		return fmt.Errorf("gomatrixserverlib: room_id must start with !")
 	}
+	if !isCreateEvent {
+		// RoomID() relies on the room ID being parseable
+		if _, err := spec.NewRoomID(res.eventFields.RoomID); err != nil {
+			return err
+		}
+	}
 	return nil
 }
